@@ -107,7 +107,9 @@ Proof. split; vm_compute; reflexivity. Qed.
 Example parse_print_sample :
   (exists bs, write Indented sample = Ok bs /\ parse bs = Ok sample) /\
   (exists bs, write Compact sample = Ok bs /\ parse bs = Ok sample).
-Proof. split; eexists; split; vm_compute; reflexivity. Qed.
+Proof.
+  split; [exists (wv (Some O) (TDict sample))|exists (wentries None sample)]; split; vm_compute; reflexivity.
+Qed.
 
 (* 9. what was written is rewritten byte for byte after being read (fixture blobs; the engine data embedded in a
       type layer, which TypeToolObjectSetting parses on read and writes back through the same writer) *)
@@ -129,7 +131,10 @@ Print Assumptions parse_never_out_of_fuel.
 Theorem mixed_list_refuted : exists d bs,
   wf_tree (TDict d) = true /\ lists_ok (Some O) (TDict d) = false /\
   write Indented d = Ok bs /\ parse bs = Err ValueErr.
-Proof. exists [([97], TList [TDict []; TInt 5])]. eexists. repeat split; vm_compute; reflexivity. Qed.
+Proof.
+  exists [([97], TList [TDict []; TInt 5])]. exists (wv (Some O) (TDict [([97], TList [TDict []; TInt 5])])).
+  repeat split; vm_compute; reflexivity.
+Qed.
 Print Assumptions mixed_list_refuted.
 
 Theorem mixed_list_typeerror_refuted : exists d,
@@ -141,21 +146,26 @@ Print Assumptions mixed_list_typeerror_refuted.
 Example mixed_list_compact_ok :
   (exists bs, write Compact [([97], TList [TDict []; TInt 5])] = Ok bs /\ parse bs = Ok [([97], TList [TDict []; TInt 5])]) /\
   (exists bs, write Indented [([97], TList [TInt 5; TDict []])] = Ok bs /\ parse bs = Ok [([97], TList [TInt 5; TDict []])]).
-Proof. split; eexists; split; vm_compute; reflexivity. Qed.
+Proof.
+  split; [exists (wentries None [([97], TList [TDict []; TInt 5])])|exists (wv (Some O) (TDict [([97], TList [TInt 5; TDict []])]))];
+    split; vm_compute; reflexivity.
+Qed.
 
 (* property names outside [A-Za-z0-9_]+ do not survive: "a b" becomes the key "a" and a stray token *)
 Theorem bad_name_refuted : exists d bs,
   write Compact d = Ok bs /\ parse bs <> Ok d.
-Proof. exists [([97;32;98], TInt 1)]. eexists. split; [reflexivity|]. vm_compute. discriminate. Qed.
+Proof. exists [([97;32;98], TInt 1)]. exists (wentries None [([97;32;98], TInt 1)]). split; [reflexivity|]. vm_compute. discriminate. Qed.
 Print Assumptions bad_name_refuted.
 
 (* a Tag must be one of the two tag token forms: "( )" is read as two tokens *)
 Theorem bad_tag_refuted : exists d bs, write Compact d = Ok bs /\ parse bs <> Ok d.
-Proof. exists [([97], TTag [40;32;41])]. eexists. split; [reflexivity|]. vm_compute. discriminate. Qed.
+Proof. exists [([97], TTag [40;32;41])]. exists (wentries None [([97], TTag [40;32;41])]). split; [reflexivity|]. vm_compute. discriminate. Qed.
 Print Assumptions bad_tag_refuted.
 
 (* representation guards of the model (not reachable from Python values): a repeated key, a payload that is not UTF-16 *)
 Theorem dup_key_refuted : exists d bs, write Compact d = Ok bs /\ parse bs <> Ok d.
-Proof. exists [([97], TInt 1); ([97], TInt 2)]. eexists. split; [reflexivity|]. vm_compute. discriminate. Qed.
+Proof. exists [([97], TInt 1); ([97], TInt 2)]. exists (wentries None [([97], TInt 1); ([97], TInt 2)]). split; [reflexivity|]. vm_compute. discriminate. Qed.
 Theorem bad_payload_refuted : exists d bs, write Compact d = Ok bs /\ parse bs = Err ValueErr.
-Proof. exists [([97], TStr [0])]. eexists. split; reflexivity. Qed.
+Proof. exists [([97], TStr [0])]. exists (wentries None [([97], TStr [0])]). split; vm_compute; reflexivity. Qed.
+Print Assumptions dup_key_refuted.
+Print Assumptions bad_payload_refuted.
